@@ -283,6 +283,15 @@ template <size_t L, size_t SU = SU_DEFAULT> struct Box : public IBox {
    mutable bool nulArg = false;
    bool cleanBefore = false;
    std::vector<std::unique_ptr<wchar_t[]>> wbufs;     ///< wide-string arguments (exact-size heap blocks)
+   /// Self-aliasing sources.  `aliasMode`: the line had the prefix `alias` -- for the duration of the operation the argument
+   /// object `t` IS `s` (the pointer `t` is set to `s`), so `s->insert( i, *t, j, c)` is `s->insert( i, *s, j, c)` and
+   /// iterators "of t" are iterators of `s`.  `selfSrc`: a `const char*` argument was given as `self:<k>` = `s->c_str() + k`,
+   /// a pointer into the own buffer.  In both cases the std::string twin runs BEFORE the implementation (on its copy of the
+   /// pre-state, reading the source while it still holds the pre-state): std::string specifies an aliasing source as a
+   /// copy of the pre-state.  Guards, well-formedness and the exact-size mirror work as for every other operation (in the
+   /// mirror world the aliasing source is the mirror object, so an over-read through the aliasing pointer is seen by ASan).
+   bool aliasMode = false;
+   mutable bool selfSrc = false;
 
    size_t curLen() const { return std::min(static_cast<size_t>(s->length()), L); }
 
@@ -308,8 +317,17 @@ template <size_t L, size_t SU = SU_DEFAULT> struct Box : public IBox {
       if (v[0] == 0) nulArg = true;
       return static_cast<char>(v[0]);
    }
+   bool isSelf(size_t i) const { return A->at(i).compare(0, 5, "self:") == 0; }
    std::string rawsrc(size_t i, const char* pfx) const {
       const std::string& tk = A->at(i);
+      if (isSelf(i) && pfx[0] == 'c') {      // `self:<k>`: the bytes of `s` from position k up to its terminator (pre-state)
+         size_t k = num(tk.substr(5));
+         if (k > curLen()) throw BadOp();
+         std::string own(s->c_str() + k, curLen() - k);
+         if (own.find('\0') != std::string::npos) nulArg = true;
+         selfSrc = true;
+         return own;
+      }
       if (tk.compare(0, 2, pfx) != 0) throw BadOp();
       std::string out;
       if (!decodeSrc(tk.substr(2), out)) throw BadOp();
@@ -319,6 +337,7 @@ template <size_t L, size_t SU = SU_DEFAULT> struct Box : public IBox {
    /// C string argument: the bytes given plus a terminating NUL, allocated at exact size
    const char* P(size_t i) {
       std::string raw = rawsrc(i, "c:");
+      if (isSelf(i)) return s->c_str() + (curLen() - raw.size());      // the pointer into the own buffer itself
       std::unique_ptr<char[]> p(new char[raw.size() + 1]);
       std::memcpy(p.get(), raw.data(), raw.size());
       p[raw.size()] = '\0';
@@ -380,7 +399,8 @@ template <size_t L, size_t SU = SU_DEFAULT> struct Box : public IBox {
       return *sbufs.back()->str;
    }
    template <class F> std::string withF(size_t i, F f) {
-      if (A->at(i) == "t") return f(*t);
+      if (A->at(i) == "t") return f(*t);      // alias mode: t == s
+      if (aliasMode) throw BadOp();
       if (A->at(i) == "u") return f(*u);
       throw BadOp();
    }
@@ -479,16 +499,33 @@ template <size_t L, size_t SU = SU_DEFAULT> struct Box : public IBox {
                    bool withT = false) {
       std::string pre(s->c_str(), curLen());
       std::string ar, er;
+      std::string ref = pre;
+      auto runTwin = [&] {
+         std::string err2 = vh::guarded([&] { er = twin(ref); });
+         if (!err2.empty()) { er = "throw:" + err2.substr(6); ref = pre; }
+      };
+      const bool twinFirst = aliasMode || selfSrc;      // the source is (part of) `s`: the twin must read the pre-state
+      if (twinFirst && !mirror) runTwin();
       std::string err = vh::guarded([&] { ar = impl(); });
+      if (!twinFirst && !mirror) runTwin();
       if (!err.empty()) ar = "throw:" + err.substr(6);
       if (mirror) return finish(pre, ar, "", "", withT);
-      std::string ref = pre;
-      std::string err2 = vh::guarded([&] { er = twin(ref); });
-      if (!err2.empty()) { er = "throw:" + err2.substr(6); ref = pre; }
       return finish(pre, ar, er, ref, withT);
    }
 
-   std::string exec(const std::vector<std::string>& a) override {
+   std::string exec(const std::vector<std::string>& line) override {
+      // `alias <operation>`: the FixedString / iterator-pair argument `t` of the operation is the object `s` itself
+      static const char* const aliasOps[] = {"assign_f", "set_f", "insert_if", "insert_ific", "append_f", "append_fpc",
+         "append_fp", "add_f", "append_itit", "rep_ccf", "rep_ccfcc", "rep_ccfc", "rep_itit_itit"};
+      std::vector<std::string> stripped;
+      aliasMode = !line.empty() && line[0] == "alias";
+      if (aliasMode) {
+         stripped.assign(line.begin() + 1, line.end());
+         bool known = false;
+         for (const char* n : aliasOps) if (!stripped.empty() && stripped[0] == n) known = true;
+         if (!known) { aliasMode = false; return "bad-op"; }
+      }
+      const std::vector<std::string>& a = aliasMode ? stripped : line;
       A = &a;
       std::string r1 = execIn(false, a);
       if (r1.compare(0, 6, "bad-op") == 0) return r1;
@@ -510,7 +547,9 @@ template <size_t L, size_t SU = SU_DEFAULT> struct Box : public IBox {
       sbufs.clear();
       wbufs.clear();
       world(m);
+      if (aliasMode) t = s;      // undone by the next world()
       nulArg = false;
+      selfSrc = false;
       cleanBefore = clean(*s, L) && clean(*t, L) && clean(*u, SU);
       try {
          return dispatch(a);
